@@ -455,6 +455,7 @@ def gen_c03_all(env, tier):
 def gen_c02_all(env, tier):
     gen_c02(env, tier)
     gen_live(env, tier, "C02")
+    gen_live(env, tier, "C02", with_axes=True)      # dimensions with two or three axes grow in place between evaluations
 
 
 def gen_c13_all(env, tier):
@@ -465,6 +466,7 @@ def gen_c13_all(env, tier):
 def gen_c05_all(env, tier):
     gen_c05(env, tier)
     gen_live(env, tier, "C05")
+    gen_live(env, tier, "C05", with_axes=True)
 
 
 def gen_c14_long(env, tier):
@@ -484,9 +486,54 @@ def gen_c14_long(env, tier):
                 record_walk(env, dims, commons)
 
 
+def harvest_size_constants(modules, lo=200, hi=1 << 17):
+    """integer constants of the current source of the given catii modules (literals, constant shifts / powers /
+    products) - C19's partition refinement applied to sizes: a row count at which the code switches strategy is a
+    boundary, whatever its value"""
+    import ast, inspect
+    out = set()
+    for mod in modules:
+        try:
+            tree = ast.parse(inspect.getsource(mod))
+        except Exception:  # noqa
+            continue
+        for node in ast.walk(tree):
+            if isinstance(node, (ast.Constant, ast.BinOp)):
+                try:
+                    v = eval(compile(ast.Expression(node), "<c>", "eval"), {"__builtins__": {}})
+                except Exception:  # noqa
+                    continue
+                if isinstance(v, int) and not isinstance(v, bool) and lo <= v <= hi:
+                    out.add(v)
+    return sorted(out)
+
+
+def gen_c14_big(env, tier):
+    """walks whose intermediate row sets have thousands of rows: 4097 rows always, and c - 1, c, c + 1, 2c + 1 rows for
+    every size constant of the current ccubes source; a category on (nearly) every row against categories holding
+    the first, the last and a few middle rows, in either dimension order (the whole event goes through TLC)"""
+    import catii.ccubes
+    rnd = env.rnd
+    consts = harvest_size_constants([catii.ccubes])
+    env.extra_notes = getattr(env, "extra_notes", {})
+    env.extra_notes["size_constants_harvested_from_ccubes"] = consts
+    sizes = sorted({4097} | {c + d for c in consts for d in (-1, 0, 1)} | {2 * c + 1 for c in consts if 2 * c + 1 <= (1 << 17)})
+    for n in sizes:
+        a = np.ones(n, dtype=np.int64)                         # category 1 on every row, common 0 absent
+        a2 = a.copy()
+        a2[[0, n // 3]] = 0
+        b = np.zeros(n, dtype=np.int64)
+        b[[0, n // 2, n - 2, n - 1]] = [1, 2, 1, 2]
+        c3 = np.zeros(n, dtype=np.int64)
+        c3[n - 1] = 1
+        for dims in ([a, b], [b, a], [a2, b], [a, a2, b], [a, c3], [b, a, c3]):
+            record_walk(env, dims, [0] * len(dims))
+
+
 def gen_c14_all(env, tier):
     gen_c14(env, tier)
     gen_c14_long(env, tier)
+    gen_c14_big(env, tier)
 
 
 def gen_c04_all(env, tier):
